@@ -13,6 +13,7 @@ WorkerPool.tla (all behaviours, up to what an in-process fake can distinguish, o
 corpora); thorough tier: real spawn pools as well."""
 import contextlib
 import io
+import json
 import math
 import os
 import shutil
@@ -99,6 +100,11 @@ class Env:
         cm = contextlib.nullcontext()
         if self.mode[0] == "fake" and uses_pool:
             plan = fakepool.Plan(self.schedules, self.mode[3])
+            if _RECORD is not None:
+                from ..doubles.fsrecorder import FsRecorder
+
+                plan.recorder = FsRecorder(self.root)
+                _RECORD.append((site, plan))
             cm = fakepool.installed(plan, self.pool_cls)
         try:
             with warnings.catch_warnings():
@@ -708,6 +714,88 @@ def check_worker_free(ctx, rec, idx, mode, schedules, base, pool_cls=fakepool.Fa
     return obs
 
 
+_RECORD = None  # list of (site, plan) while per-item file-system operations are being recorded
+
+
+def interleavings(ctx, recs, schedules, maxn):
+    """WorkerPool.tla treats an item's work as atomic.  Here the per-item work of every pool command is opened up:
+    the file-system operations each item performed (recorded while FakePool ran the real function) are interleaved
+    in every possible way by TLC (WorkerPoolFs.tla, 3 workers, first 3 items of every pool call); the directory and
+    everything read must come out as in the serial run."""
+    global _RECORD
+    mod = os.path.join(SPECS, "WorkerPoolFs.tla")
+    res = tlc.run(mod, os.path.join(SPECS, "WorkerPoolFs_shared.cfg"), workers=2, timeout=600, coverage=False)
+    if res.ok:
+        raise MachineryError("WorkerPoolFs: two items sharing a scratch file do not violate Deterministic (vacuous)")
+    ctx.add_tlc("WorkerPoolFs/shared scratch file (expected violation)", res, count_states=False)
+    res = tlc.run(mod, os.path.join(SPECS, "WorkerPoolFs_private.cfg"), workers=2, timeout=600)
+    tlc.require_ok(res, "WorkerPoolFs/private")
+    tlc.require_covered(res, ["Take", "Step", "Finish"], "WorkerPoolFs/private")
+    ctx.add_tlc("WorkerPoolFs/private scratch files", res)
+    programs, meta = [], {}
+    for fam in FAMS:
+        if fam not in POOL_FAMS:
+            continue
+        chosen = [(idx, rec) for idx, rec in enumerate(recs[fam]) if rec is not None and 2 <= n_items(rec) <= maxn and len(rec["data"]) <= maxn
+                  and not (fam == "sub" and rec["crit"]["kind"].startswith(("shortest", "longest")))]
+        chosen.sort(key=lambda t: -n_items(t[1]))
+        for idx, rec in chosen[:2 if ctx.quick else 8]:
+            _RECORD = []
+            try:
+                before = len(ctx.violations) + sum(ctx.known_hits.values())
+                run_case(ctx, rec, idx, ("fake", 2, 1, 0), schedules)
+                recorded = _RECORD
+            finally:
+                _RECORD = None
+            if len(ctx.violations) + sum(ctx.known_hits.values()) != before:
+                continue
+            for site, plan in recorded:
+                by_call = {}
+                for (call, k), ops in plan.recorder.items.items():
+                    by_call.setdefault(call, {})[k] = ops
+                for call, items in sorted(by_call.items()):
+                    ks = sorted(items)[:3]
+                    if len(ks) < 2:
+                        continue
+                    tid = len(programs) + 1
+                    programs.append(dict(tid=tid, items=[items[k] for k in ks]))
+                    meta[tid] = dict(site=site, fam=fam, rec=rec, idx=idx, call=call,
+                                     paths={v: os.path.relpath(k, plan.recorder.root) for k, v in plan.recorder.paths.items()})
+    if not programs:
+        raise MachineryError("no per-item file-system programs were recorded")
+    path = os.path.join(ctx.workdir, "fs_programs.json")
+    with open(path, "w") as f:
+        json.dump(programs, f)
+    res = tlc.run(mod, os.path.join(SPECS, "WorkerPoolFs_file.cfg"), workers=4, timeout=1800, env={"TRACE_FILE": path},
+                  coverage=False)
+    tlc.require_ok(res, "WorkerPoolFs/recorded programs")
+    ctx.add_tlc("WorkerPoolFs/recorded programs", res)
+    explored = {r["tid"] for r in res.records if r.get("done")}
+    bad = {}
+    for r in res.records:
+        if not r.get("done"):
+            bad.setdefault(r["tid"], r)
+    for prog in programs:
+        tid = prog["tid"]
+        m = meta[tid]
+        nops = sum(len(x) for x in prog["items"])
+        writes = sum(1 for x in prog["items"] for o in x if o[0] != "r")
+        ctx.case(key=("interleave", m["site"], m["idx"], m["call"]), nontrivial=writes >= 2, n=1,
+                 sample=dict(site=m["site"], program=prog["items"], paths=m["paths"]) if tid in (1, len(programs)) else None)
+        ctx.traces += 1
+        if tid not in explored:
+            raise MachineryError("WorkerPoolFs did not explore program %d to the end" % tid)
+        if tid in bad:
+            ctx.violation(dict(site=m["site"], kind="interleaving_dependent_output"),
+                          "the per-item work of two items interferes through the file system: with the operations %r "
+                          "(paths %r) some interleaving of the workers ends with %r where the serial run gives %r"
+                          % (prog["items"], m["paths"], bad[tid].get("fs"), bad[tid].get("serial")),
+                          dict(fam=m["fam"], rec=m["rec"], idx=m["idx"], mode=["fake", 2, 1, 0], interleave=True,
+                               program=prog["items"], paths=m["paths"]))
+    ctx.extra["interleaved_programs"] = len(programs)
+    ctx.extra["interleaved_ops"] = sum(len(x) for pr in programs for x in pr["items"])
+
+
 def dedupe(behaviours):
     """behaviours an in-process fake can tell apart: the order of finish and deliver events"""
     seen, out = set(), []
@@ -838,6 +926,7 @@ def run(ctx):
     ctx.extra["phase_wall_s"] = phases
     ctx.extra["schedule_sweep_runs"] = swept
     ctx.extra["cases_by_family"] = {k: len(v) for k, v in recs.items()}
+    interleavings(ctx, recs, schedules, maxn)
     if not ctx.quick and not os.environ.get("VF_C17_FAMS"):
         real_pools(ctx, recs, schedules)
         selftest(ctx, recs, schedules)
@@ -954,7 +1043,16 @@ def replay(ctx, case):
     if mode[0] == "fake":
         res = _tr._run_parallel(_tr.pool_jobs(ctx, with_design=False))
         schedules = _tr.group_schedules(res["WorkerPool/schedules"].records)
-    if case.get("base"):
+    if case.get("interleave"):
+        # record the per-item operations of this one case again and let TLC interleave them
+        maxn = max(k[0] for k in schedules)
+        global FAMS
+        saved, FAMS = FAMS, [rec["fam"]]
+        try:
+            interleavings(ctx, {rec["fam"]: [None] * idx + [rec]}, schedules, maxn)
+        finally:
+            FAMS = saved
+    elif case.get("base"):
         base = run_case(ctx, rec, idx, ("serial",), schedules)
         check_worker_free(ctx, rec, idx, mode, schedules, base)
     else:
